@@ -22,6 +22,12 @@ instance (s : List Nat) : Decidable (IsBytes s) := by unfold IsBytes; infer_inst
 
 def isCont (b : Nat) : Bool := 0x80 ≤ b && b ≤ 0xBF
 
+/-- accepted range of the second byte (Go's `acceptRanges`) -/
+def lo3 (b0 : Nat) : Nat := if b0 = 0xE0 then 0xA0 else 0x80
+def hi3 (b0 : Nat) : Nat := if b0 = 0xED then 0x9F else 0xBF
+def lo4 (b0 : Nat) : Nat := if b0 = 0xF0 then 0x90 else 0x80
+def hi4 (b0 : Nat) : Nat := if b0 = 0xF4 then 0x8F else 0xBF
+
 /-- `utf8.DecodeRuneInString`: `some (r, n)` for a well-formed sequence of `n` bytes at the head,
 `none` for `(RuneError, 1)` (ill-formed) and for the empty string. -/
 def decodeRune : List Nat → Option (Nat × Nat)
@@ -35,16 +41,12 @@ def decodeRune : List Nat → Option (Nat × Nat)
     else if 0xE0 ≤ b0 ∧ b0 ≤ 0xEF then
       match t with
       | b1 :: b2 :: _ =>
-        let lo := if b0 = 0xE0 then 0xA0 else 0x80
-        let hi := if b0 = 0xED then 0x9F else 0xBF
-        if lo ≤ b1 ∧ b1 ≤ hi ∧ isCont b2 then some ((b0 % 16) * 4096 + (b1 % 64) * 64 + b2 % 64, 3) else none
+        if lo3 b0 ≤ b1 ∧ b1 ≤ hi3 b0 ∧ isCont b2 then some ((b0 % 16) * 4096 + (b1 % 64) * 64 + b2 % 64, 3) else none
       | _ => none
     else if 0xF0 ≤ b0 ∧ b0 ≤ 0xF4 then
       match t with
       | b1 :: b2 :: b3 :: _ =>
-        let lo := if b0 = 0xF0 then 0x90 else 0x80
-        let hi := if b0 = 0xF4 then 0x8F else 0xBF
-        if lo ≤ b1 ∧ b1 ≤ hi ∧ isCont b2 ∧ isCont b3 then
+        if lo4 b0 ≤ b1 ∧ b1 ≤ hi4 b0 ∧ isCont b2 ∧ isCont b3 then
           some ((b0 % 8) * 262144 + (b1 % 64) * 4096 + (b2 % 64) * 64 + b3 % 64, 4)
         else none
       | _ => none
